@@ -472,8 +472,10 @@ func genFaults(ctx *Ctx, emit func(Case)) {
 			ptLen = ctx.N(5000, 9000)
 		}
 		pt := r.Bytes(ptLen)
+		closeOK := false
 		run := func(failAt int, sticky bool) (anyErr bool, w *faultWriter) {
 			w = &faultWriter{failAt: failAt, sticky: sticky}
+			closeOK = false
 			s, err := mk(w)
 			if err != nil {
 				return true, w
@@ -489,11 +491,16 @@ func genFaults(ctx *Ctx, emit func(Case)) {
 			}
 			if err := s.Close(); err != nil {
 				anyErr = true
+			} else {
+				closeOK = true
 			}
 			return anyErr, w
 		}
 		_, clean := run(-1, false)
 		total := clean.n
+		cleanLen := clean.data.Len()
+		cleanBytes := append([]byte(nil), clean.data.Bytes()...)
+		deterministic := name == "armor" // no randomness: the complete message is the same bytes in every run
 		step := 1
 		if total > ctx.N(150, 1500) {
 			step = total/ctx.N(150, 1500) + 1
@@ -502,12 +509,18 @@ func genFaults(ctx *Ctx, emit func(Case)) {
 			for _, sticky := range []bool{false, true} {
 				k, sticky := k, sticky
 				anyErr, w := run(k, sticky)
+				closedOK := closeOK
 				line := fmt.Sprintf("noop fault.write %s k=%d sticky=%v", name, k, sticky)
 				emit(Case{Stream: "fault.write." + name, Line: line, GoOut: "bad-op", Branch: fmt.Sprintf("k%%8=%d", k%8), Trivial: false,
 					Sample: map[string]interface{}{"stream": name, "underlying_writes": total, "fault_at": k, "sticky": sticky, "error_reported": anyErr},
 					Direct: func() string {
 						if w.failed && !anyErr {
 							return fmt.Sprintf("an underlying Write failed (call %d of %d, stream %s, sticky=%v) but no Write/Close of the encoding stream returned an error", k, total, name, sticky)
+						}
+						// "... so Close never reports success for a message that was not completely written" — whatever the
+						// earlier Writes returned (the caller here carries on after an error, as a retrying caller would)
+						if closedOK && (w.data.Len() != cleanLen || (deterministic && !bytes.Equal(w.data.Bytes(), cleanBytes))) {
+							return fmt.Sprintf("Close reports success for a message that was not completely written: stream %s, %d-byte plaintext in 300-byte Writes, underlying Write %d of %d fails once (sticky=%v); %d of %d bytes reached the writer", name, len(pt), k, total, sticky, w.data.Len(), cleanLen)
 						}
 						return ""
 					}})
